@@ -3,7 +3,8 @@
   server_http.go endSessionHandler): what the REGENERATED functions of Generated/Session.lean read.
   Library calls are oracle arguments (`SessOracles`): `path.Match`, `url.Parse` (+ `SessURL.Query`,
   `SessURL.String`), and which serialized token a hint string is (go-jose / `oidc.ParseToken`).
-  `sessMergeQueryParams` is modelled by hand on top of Model/Query.lean; tied by the C18 stream.
+  `sessMergeQueryParams` is modelled by hand on top of Model/Query.lean; tied by the C18 stream (the byte-level
+  translation of the same Go function is `GenWire.mergeQueryParams`, Generated/AuthResponse.lean, C11).
 -/
 import OidcModel.Model.OP
 import OidcModel.Model.Query
@@ -19,13 +20,21 @@ def forFirst {α β : Type} (l : List α) (f : α → Option β) : Option β :=
     | none => forFirst xs f
 end Go
 
-/-- what `url.Parse` makes of a string, as far as `sessMergeQueryParams` uses it -/
+/-- what `url.Parse` makes of a string, as far as `sessMergeQueryParams` and the C18 monitor use it -/
 structure SessURL where
   base : String := ""                          -- `String()` of the SessURL without query and fragment
-  query : List (String × List String) := []    -- `SessURL.Query()`: key ↦ values, keys in the order `Encode` emits (sorted)
+  rawQuery : String := ""                      -- `RawQuery`: the query text as it stands in the string
+  forceQuery : Bool := false                   -- `ForceQuery`: a `?` with nothing behind it
+  query : List (String × List String) := []    -- `SessURL.Query()`: key ↦ values of the settings `ParseQuery` accepts, keys sorted
+  unread : List String := []                   -- the settings of `rawQuery` (text between `&`) that `ParseQuery` rejects, in order
   frag : String := ""                          -- "" or "#…" exactly as `String()` renders the fragment
-  lossy : Bool := false                        -- `ParseQuery` reported an error: some pairs of the raw query were dropped
   deriving DecidableEq, Repr, Inhabited
+
+namespace SessURL
+/-- `u.String()` -/
+def render (u : SessURL) : String :=
+  u.base ++ (if u.forceQuery || u.rawQuery != "" then "?" ++ u.rawQuery else "") ++ u.frag
+end SessURL
 
 structure SessOracles where
   pathMatch : String → String → Go.R Bool      -- `path.Match(pattern, name)`
@@ -144,14 +153,17 @@ def flatten (q : List (String × List String)) : List (String × String) :=
 
 def pairBytes (q : List (String × String)) : List Query.Pair := q.map fun kv => (toBytes kv.1, toBytes kv.2)
 
-/-- the SessURL `u` with query `q`, as `SessURL.String()` renders it -/
-def renderURL (u : SessURL) (q : List (String × List String)) : String :=
-  let enc := ofAscii (Query.encode (pairBytes (flatten q)))
-  u.base ++ (if enc == "" then "" else "?" ++ enc) ++ u.frag
+/-- `url.Values.Encode()` of `params` (a Go map: keys distinct): keys sorted, `key=value` joined by `&` -/
+def encodeParams (params : List (String × List String)) : String :=
+  ofAscii (Query.encode (pairBytes (flatten ((flatten params).foldl (fun q kv => addParam q kv.1 kv.2) []))))
 
-/-- `sessMergeQueryParams(uri, params)`: existing query kept, `params` added, `Encode`d, `String()` -/
+/-- how `mergeQueryParams` joins the query text of the URI and the encoded parameters -/
+def joinQuery (rawQuery encoded : String) : String :=
+  if rawQuery == "" then encoded else if encoded != "" then rawQuery ++ "&" ++ encoded else rawQuery
+
+/-- `mergeQueryParams(uri, params)`: the query text of `uri` stays as it is, the encoded `params` are appended, `String()` -/
 def sessMergeQueryParams (_now : Int) (u : SessURL) (params : List (String × List String)) : String :=
-  renderURL u ((flatten params).foldl (fun q kv => addParam q kv.1 kv.2) u.query)
+  ({ u with rawQuery := joinQuery u.rawQuery (encodeParams params) } : SessURL).render
 
 def sessNewRedirect (_now : Int) (url : String) : SessRedirect := ⟨url⟩
 def newRequest {α : Type} (_now : Int) (x : α) : Request α := { Data := x }
